@@ -59,6 +59,22 @@ def stage1(prop, tier, v, cov):
         tr += r.generated
         cov["mc_runs"].append(dict(run="MC_KrpcServer focus=%s MaxN=%d %s" % (focus, maxn, over), distinct=r.distinct,
                                    generated=r.generated, depth=r.depth, wall_s=round(r.wall, 1)))
+    if prop == "C10":
+        # the token window at one-second grain against the rotation grid, and the two vacuity guards
+        def tw(d):
+            return "CONSTANTS\n Interval = 300\n MaxDelta = %d\nSPECIFICATION Spec\nINVARIANTS HonouredTenMinutes DeadAfterFifteen\nCHECK_DEADLOCK FALSE\n" % d
+        r = vlib.tlc("TokenWindow", tw(2), timeout=900)
+        log("  TLC TokenWindow (all issue/use instants, 1 s grain)  %d distinct  %.1fs" % (r.distinct, r.wall))
+        if not r.clean:
+            v.inconclusive.append("TokenWindow not clean: %s %s" % (r.invariant, r.error))
+        else:
+            st += r.distinct
+            tr += r.generated
+            cov["mc_runs"].append(dict(run="TokenWindow Interval=300 MaxDelta=2", distinct=r.distinct, generated=r.generated, depth=r.depth, wall_s=round(r.wall, 1)))
+        for d, inv in ((1, "HonouredTenMinutes"), (3, "DeadAfterFifteen")):
+            g = vlib.tlc("TokenWindow", tw(d), timeout=900)
+            if g.invariant != inv:
+                v.inconclusive.append("vacuity guard failed: TokenWindow with MaxDelta=%d did not violate %s" % (d, inv))
     cov["states"] = st
     cov["transitions"] = tr
 
